@@ -249,6 +249,7 @@ func ruleParseBinOp(r *Run) {
 		w := &feWalker{Fn: fn, Assume: assume, MaxPath: 6000, Inline: inl}
 		var d decision
 		seen := false
+		skipped := false
 		for _, e := range w.Run() {
 			// first event after the first execution of the inner peek
 			innerSeq := -1
@@ -259,6 +260,13 @@ func ruleParseBinOp(r *Run) {
 				}
 			}
 			if innerSeq < 0 {
+				// a path that completes the current operation without ever looking at the next
+				// operator: the right operand was not offered to a tighter operator
+				for _, s := range e.State.stores {
+					if _, base, ok := fieldNameOf(s.Store.Addr); ok && typeKey(base.Type()) == "BinOpExpr" {
+						skipped = true
+					}
+				}
 				continue
 			}
 			recSeq, leaveSeq := 1<<30, 1<<30
@@ -290,7 +298,7 @@ func ruleParseBinOp(r *Run) {
 				d.leave = true
 			}
 		}
-		return d, seen && d.leave != d.recurse
+		return d, seen && d.leave != d.recurse && !skipped
 	}
 	type row struct{ name, claim string }
 	rows := map[string]*Obligation{}
